@@ -221,7 +221,9 @@ func runC05(c *Ctx) {
 		if !c.Check("C05.port.value", key+" is a default-port substitution", okv && scheme != "", p.Pos(st.Pos()), desc(st.Val)) {
 			continue
 		}
-		seen[pr{u, port}] = true
+		for _, ua := range phiAlts(u) { // a new helper applied to several URLs describes its parameter as their merge
+			seen[pr{ua, port}] = true
+		}
 		tgt := func(i ssa.Instruction) bool { return i == ssa.Instruction(st) }
 		c.mustPassPred(p, fn, "C05.port.scheme", key+" only for scheme "+scheme, tgt, litAny(T("("+u+`.Scheme == "`+scheme+`")`)))
 		c.mustPassPred(p, fn, "C05.port.scheme", key+" only when no port is given", tgt, litAny(T("((*net/url.URL).Port("+u+`) == "")`)))
